@@ -84,8 +84,9 @@ func (s *Scheduler) Clear() {
 }
 
 func uniqueJobKey(ctx vivid.ActorContext, reference string) *quartz.JobKey {
-	jobKey := ctx.Ref().GetPath() + ":" + reference
-	return quartz.NewJobKey(jobKey)
+	// 路径与引用分别作为分组与名称，避免拼接后不同 Actor 的任务键相同（如 "/a:x"+"r" 与 "/a"+"x:r"）
+	// 名称加前缀以保证引用为空字符串时键名仍非空
+	return quartz.NewJobKeyWithGroup("ref:"+reference, ctx.Ref().GetPath())
 }
 
 func schedulerErrorConvert(err error) error {
